@@ -22,7 +22,7 @@ func init() {
 func (c12) ID() string    { return "C12" }
 func (c12) Level() string { return "exploration" }
 func (c12) Rule() string {
-	return "A case is a seeded sequence of policy operations by signers inside and outside the roles — stage (valid successors with root rotation over several staged steps, thresholds, rule and version edits; and successors a non-root or non-rule-file key produced: root not signed by the predecessor's quorum, self-declared new root, rule file signed by an untrusted key, lowered versions, unreachable rule file), apply, discard, authorised pushes — interleaved with crash leftovers and tampering written straight into the store: policy or staging ref moved without a log entry, a log entry without the ref, staging reset to a commit that does not descend from policy. Oracle: a state machine over (policy ref, staging ref, their latest log entries): a successful Apply moved the policy ref to the staged tip, which descends from the old policy tip, and appended its policy entry; Apply refuses on any ref/entry disagreement, on non-descendant staging and on invalid staged metadata; a failed Apply changes neither ref; Discard makes staging equal to policy; and every state a successful Apply published is accepted by a fresh LoadCurrentState and by full verification of an authorised branch history. API slice (workers 0-3 of 16, every 100th of their cases; real git): on a repository whose applied and recorded staging states have root keys {0,4}, with staged-but-unrecorded edits on top (a directive and a hook; in a third of the cases the removal of root key 4, in another third a key added as root and removed again), 10-14 of the 29 root-of-trust mutators of experimental/gittuf are each called with valid arguments by a signer who is not a root principal of the staged state (branch-rule developer, rule-file key, app key, role-less principal, unknown key, the removed root key, the added-and-removed key): each call must return an error and leave every reference unchanged; one of the same calls is then repeated by a root principal (non-vacuity probe, not an obligation). Distinct = distinct (operation/outcome sequence, tamper kinds, ref relation before each apply | signer kind, scenario, outcome vector); non-trivial = at least two applies were attempted and at least one succeeded after a non-initial stage, or an API case ran."
+	return "A case is a seeded sequence of policy operations by signers inside and outside the roles — stage (valid successors with root rotation over several staged steps, thresholds, rule and version edits; and successors a non-root or non-rule-file key produced: root not signed by the predecessor's quorum, self-declared new root, rule file signed by an untrusted key, lowered versions, unreachable rule file), apply, discard, authorised pushes — interleaved with crash leftovers and tampering written straight into the store: policy or staging ref moved without a log entry, a log entry without the ref, staging reset to a commit that does not descend from policy, or back to an older applied policy commit. Oracle: a state machine over (policy ref, staging ref, their latest log entries): a successful Apply moved the policy ref to the staged tip, which descends from the old policy tip, and appended its policy entry; Apply refuses on any ref/entry disagreement, on non-descendant staging and on invalid staged metadata; a failed Apply changes neither ref; Discard makes staging equal to policy; and every state a successful Apply published is accepted by a fresh LoadCurrentState and by full verification of an authorised branch history. API slice (workers 0-3 of 16, every 100th of their cases; real git): on a repository whose applied and recorded staging states have root keys {0,4}, with staged-but-unrecorded edits on top (a directive and a hook; in a third of the cases the removal of root key 4, in another third a key added as root and removed again), 10-14 of the 29 root-of-trust mutators of experimental/gittuf are each called with valid arguments by a signer who is not a root principal of the staged state (branch-rule developer, rule-file key, app key, role-less principal, unknown key, the removed root key, the added-and-removed key): each call must return an error and leave every reference unchanged; one of the same calls is then repeated by a root principal (non-vacuity probe, not an obligation). Distinct = distinct (operation/outcome sequence, tamper kinds, ref relation before each apply | signer kind, scenario, outcome vector); non-trivial = at least two applies were attempted and at least one succeeded after a non-initial stage, or an API case ran."
 }
 func (c12) Components() map[string]string {
 	return map[string]string{"internal/policy (Apply, Discard, ReconcileStaging, State.Commit, LoadState)": "real", "experimental/gittuf root mutators (loadRootMetadata)": "real, on real git 2.39 / tmpfs in the API-slice cases", "pkg/gitinterface": "real in the API-slice cases", "gitstore.Storer": "stub (SimStore)"}
@@ -121,7 +121,7 @@ func (d c12) Generate(r *core.Rand, tier string, idx uint64) *core.Case {
 			a := r.Range(1, 2)
 			b.add(world.Op{Kind: "push", Actor: a, Ref: mainRef, Files: fileFor(r, i), CommitKey: a, EntryKey: -2})
 		case 4:
-			b.add(world.Op{Kind: "tamper", Actor: 6, N: r.Intn(5)})
+			b.add(world.Op{Kind: "tamper", Actor: 6, N: r.Intn(6)})
 		case 5:
 			b.add(world.Op{Kind: "restart", Actor: 0})
 		}
@@ -203,6 +203,20 @@ func (d c12) Execute(c *core.Case) *core.Result {
 						w.SyncTruth(op.ID, 6, advKey, nil)
 						tampered["staging-not-descendant"] = true
 					}
+				}
+			case 5: // staging taken back to an OLDER applied policy commit (an ancestor of policy), with its entry: a rollback attempt
+				older := ""
+				for _, e := range w.Entries {
+					if e.Kind == "reference" && e.Ref == policyRef && e.Target != P {
+						older = e.Target
+					}
+				}
+				if older != "" && P != "" {
+					w.St.SetRef(stagingRef, older)
+					a := w.Actors[6]
+					a.Proc.RunOp(op.ID, func() error { return world.RecordEntry(a.H, stagingRef, older, -2) })
+					w.SyncTruth(op.ID, 6, advKey, nil)
+					tampered["staging-rolled-back-to-older-policy"] = true
 				}
 			case 4: // staging ref deleted (entry remains)
 				if S != "" {
